@@ -275,6 +275,7 @@ func (fr *frame) dynamicCall(x *ssa.Call, v *Term, args []*Term, st *state) {
 	g.assert("(= " + n1 + " (+ " + cnt + " 1))")
 	f1 := g.newVersion(st, "dyn.fn")
 	g.assert("(= " + f1 + " (store " + fns + " " + cnt + " " + v.S + "))")
+	fr.noteLastErr(vals, st)
 	fr.setResult(x, vals)
 }
 
@@ -326,6 +327,7 @@ func (fr *frame) invoke(x *ssa.Call, st *state) {
 			vals = append(vals, fr.symbolic(fr.name(x)+"_inv", rt, st))
 		}
 	}
+	fr.noteLastErr(vals, st)
 	fr.setResult(x, vals)
 }
 
@@ -479,4 +481,20 @@ func (fr *frame) copyCall(x *ssa.Call, args []*Term, st *state) {
 		g.assert("(forall ((j Int)) (! (=> (or (< j (s_off " + d.S + ")) (>= j (+ (s_off " + d.S + ") " + n + "))) (= (select " + A + " j) (select (select " + old + " (s_arr " + d.S + ")) j))) :pattern ((select " + A + " j))))")
 	}
 	fr.env[x] = &Term{S: n, T: x.Type()}
+}
+
+// noteLastErr records the error result of an oracle call (fetcher / operator) in the ghost
+// cell last.err, so that contracts can state "the returned error is the very one the last call returned".
+func (fr *frame) noteLastErr(vals []*Term, st *state) {
+	g := fr.g
+	if len(vals) == 0 {
+		return
+	}
+	last := vals[len(vals)-1]
+	if last.T == nil || !isErrorType(last.T) {
+		return
+	}
+	g.base(st, "last.err", "Err", 0, false)
+	nv := g.newVersion(st, "last.err")
+	g.assert("(= " + nv + " " + last.S + ")")
 }
